@@ -7,6 +7,7 @@ import (
 
 	mux "github.com/issue9/mux/v9"
 	"github.com/issue9/mux/v9/simrt"
+	"github.com/issue9/mux/v9/types"
 )
 
 // Facade programs (C09, C19): named Prefix / Resource objects, registrations
@@ -66,10 +67,16 @@ func genProgram(r *Rng, group bool) *World {
 		}
 		return t
 	}
+	var pairBase []string
+	var pairVia, pairExtra string
 	n := r.Range(5, 18)
 	for i := 0; i < n; i++ {
 		op := Op{T: r.Intn(nTasks)}
-		switch k := r.Intn(100); {
+		k := r.Intn(100)
+		if pairBase != nil {
+			k = 99 // the second half of a pair follows its first half immediately
+		}
+		switch {
 		case k < 14: // new prefix (possibly nested)
 			fN++
 			op.K, op.Name = "prefix", fmt.Sprintf("p%d", fN)
@@ -152,6 +159,9 @@ func genProgram(r *Rng, group bool) *World {
 			if len(names) > 0 && r.Pct(75) {
 				op.Via = pick(r, names)
 			}
+			if pairBase != nil {
+				op.Via = pairVia
+			}
 			ok := false
 			for try := 0; try < 6 && !ok; try++ {
 				full := ""
@@ -167,12 +177,23 @@ func genProgram(r *Rng, group bool) *World {
 				ok = v == 1
 			}
 			if !ok {
+				pairBase = nil
 				continue
 			}
 			hid++
 			op.HID = hid
 			op.MW = tags("R")
 			op.B = r.Pct(60) // use Get/Post/.../Any instead of Handle where one exists for the method list
+			if pairBase != nil && op.Via == pairVia {
+				// second half of a "base, base+extra" pair: same list plus one more middleware
+				op.MW = append(append([]string{}, pairBase...), pairExtra)
+				op.N = 2
+				pairBase = nil
+			} else if len(op.MW) > 0 && op.Via != "" && r.Pct(35) {
+				pairBase, pairVia, pairExtra = op.MW, op.Via, tag("X")
+				op.N = 1
+				op.Args = []string{pairExtra}
+			}
 		}
 		// model bookkeeping at generation time (only to keep registrations valid)
 		switch op.K {
@@ -212,7 +233,28 @@ func genProgram(r *Rng, group bool) *World {
 
 // progRun executes a facade program, either through the facades (desugar =
 // false) or translated into plain Router calls (desugar = true).
+// mwFor builds the route-level middleware list of a registration.  Two consecutive registrations
+// marked N=1 / N=2 by the generator use the "base, then base+extra" idiom on ONE backing array:
+// both slices exist before the first call, so a callee that appends to the caller's slice in place
+// of copying it overwrites the extra element of the second list.
+func (p *progRun) mwFor(op *Op) []types.Middleware[*Comp] {
+	switch op.N {
+	case 1:
+		both := p.env.MWs(append(append([]string{}, op.MW...), op.Args...)...)
+		p.pending = both
+		return both[:len(op.MW):len(both)]
+	case 2:
+		if p.pending != nil && len(p.pending) == len(op.MW) {
+			ms := p.pending
+			p.pending = nil
+			return ms
+		}
+	}
+	return p.env.MWs(op.MW...)
+}
+
 type progRun struct {
+	pending []types.Middleware[*Comp]
 	w       *World
 	env     *Env
 	r       *mux.Router[*Comp]
@@ -255,9 +297,9 @@ func (p *progRun) step(op *Op) (pan string) {
 		}
 		if !p.desugar {
 			if parent != nil {
-				f.prefix = parent.prefix.Prefix(op.Pattern, e.MWs(op.MW...)...)
+				f.prefix = parent.prefix.Prefix(op.Pattern, p.mwFor(op)...)
 			} else {
-				f.prefix = r.Prefix(op.Pattern, e.MWs(op.MW...)...)
+				f.prefix = r.Prefix(op.Pattern, p.mwFor(op)...)
 			}
 		}
 		p.ps.fac[op.Name] = f
@@ -273,14 +315,14 @@ func (p *progRun) step(op *Op) (pan string) {
 		}
 		if !p.desugar {
 			if parent != nil {
-				f.res = parent.prefix.Resource(op.Pattern, e.MWs(op.MW...)...)
+				f.res = parent.prefix.Resource(op.Pattern, p.mwFor(op)...)
 			} else {
-				f.res = r.Resource(op.Pattern, e.MWs(op.MW...)...)
+				f.res = r.Resource(op.Pattern, p.mwFor(op)...)
 			}
 		}
 		p.ps.fac[op.Name] = f
 	case "use":
-		r.Use(e.MWs(op.MW...)...)
+		r.Use(p.mwFor(op)...)
 		p.m.Use = append(p.m.Use, op.MW...)
 	case "handle":
 		full, flat := fullPattern(p.ps, op)
@@ -319,36 +361,36 @@ func (p *progRun) step(op *Op) (pan string) {
 		case f.isRes:
 			switch short {
 			case "GET":
-				f.res.Get(h, e.MWs(op.MW...)...)
+				f.res.Get(h, p.mwFor(op)...)
 			case "POST":
-				f.res.Post(h, e.MWs(op.MW...)...)
+				f.res.Post(h, p.mwFor(op)...)
 			case "DELETE":
-				f.res.Delete(h, e.MWs(op.MW...)...)
+				f.res.Delete(h, p.mwFor(op)...)
 			case "PUT":
-				f.res.Put(h, e.MWs(op.MW...)...)
+				f.res.Put(h, p.mwFor(op)...)
 			case "PATCH":
-				f.res.Patch(h, e.MWs(op.MW...)...)
+				f.res.Patch(h, p.mwFor(op)...)
 			case "ANY":
-				f.res.Any(h, e.MWs(op.MW...)...)
+				f.res.Any(h, p.mwFor(op)...)
 			default:
-				f.res.Handle(h, e.MWs(op.MW...), op.Methods...)
+				f.res.Handle(h, p.mwFor(op), op.Methods...)
 			}
 		default:
 			switch short {
 			case "GET":
-				f.prefix.Get(op.Pattern, h, e.MWs(op.MW...)...)
+				f.prefix.Get(op.Pattern, h, p.mwFor(op)...)
 			case "POST":
-				f.prefix.Post(op.Pattern, h, e.MWs(op.MW...)...)
+				f.prefix.Post(op.Pattern, h, p.mwFor(op)...)
 			case "DELETE":
-				f.prefix.Delete(op.Pattern, h, e.MWs(op.MW...)...)
+				f.prefix.Delete(op.Pattern, h, p.mwFor(op)...)
 			case "PUT":
-				f.prefix.Put(op.Pattern, h, e.MWs(op.MW...)...)
+				f.prefix.Put(op.Pattern, h, p.mwFor(op)...)
 			case "PATCH":
-				f.prefix.Patch(op.Pattern, h, e.MWs(op.MW...)...)
+				f.prefix.Patch(op.Pattern, h, p.mwFor(op)...)
 			case "ANY":
-				f.prefix.Any(op.Pattern, h, e.MWs(op.MW...)...)
+				f.prefix.Any(op.Pattern, h, p.mwFor(op)...)
 			default:
-				f.prefix.Handle(op.Pattern, h, e.MWs(op.MW...), op.Methods...)
+				f.prefix.Handle(op.Pattern, h, p.mwFor(op), op.Methods...)
 			}
 		}
 		if verdict >= 0 {
